@@ -32,6 +32,11 @@ def run_batch(g, tier, name, runs, out, acc):
     out["wall"]["judge"] = round(out["wall"].get("judge", 0) + time.time() - t0, 2)
     acc["runs"] += verdict["runs"]
     acc["events"] += verdict["events"]
+    # distinct, non-trivial runs: different (configuration, commands) and at least one command besides the
+    # handshake and the closing drain
+    for r in runs:
+        if sum(1 for c in r["cmds"] if c.get("c") not in ("drain", "pollall", "mark")) >= 2:
+            acc["distinct"].add(hashlib.sha256(json.dumps([r["cfg"], r["cmds"]], sort_keys=True).encode()).digest()[:12])
     allby = {}
     for v in verdict["viol"]:
         allby.setdefault(v["run"], []).append(v)
@@ -74,7 +79,7 @@ def run_model_group(g, tier, seed):
     """generic pipeline for a connection-level group, one batch per TLC configuration:
        TLC export -> replay sample/all on the real code -> TLC judge"""
     out = dict(tlc=[], wall={})
-    acc = dict(runs=0, events=0, agree=0, disagree=0, dis_samples=[], viols=[], samples=[])
+    acc = dict(runs=0, events=0, agree=0, disagree=0, dis_samples=[], viols=[], samples=[], distinct=set())
     quota = g.get("quota", 350) if tier == "quick" else g.get("quota_thorough", 12000)
     for cfgt in g["configs"](tier):
         name, cfg_text, module, decode, variants = cfgt[:5]
@@ -114,7 +119,7 @@ def run_model_group(g, tier, seed):
     for e in extra:
         e.setdefault("src", "generated")
     run_batch(g, tier, "extra", extra, out, acc)
-    out["judge"] = dict(runs=acc["runs"], events=acc["events"])
+    out["judge"] = dict(runs=acc["runs"], events=acc["events"], distinct_nontrivial=len(acc["distinct"]))
     out.update(verdict_agree=acc["agree"], verdict_drift=acc["disagree"], drift_samples=acc["dis_samples"],
                viols=acc["viols"], samples=acc["samples"])
     return out
@@ -186,6 +191,7 @@ def report(prop, g, tier, seed, res, wall):
     cov = dict(
         states=states, transitions=trans,
         traces_validated_against_impl=res["judge"]["runs"],
+        evaluations=res["judge"]["runs"], distinct_nontrivial=res["judge"].get("distinct_nontrivial", 0),
         events_judged=res["judge"]["events"],
         samples=res["samples"], tlc=res["tlc"],
         verdict_agreement=dict(agree=res["verdict_agree"], drift=res["verdict_drift"], drift_samples=res["drift_samples"]),
